@@ -291,7 +291,7 @@ Qed.
 
 Lemma b_items_set_order b x : In x (b_items b) -> In x (b_set_order b).
 Proof.
-  unfold b_items, b_set_order. cbv zeta. destruct (b_symT b), (b_symL b); try (intros H; exact H).
+  unfold b_set_order, b_items. cbv zeta. destruct (b_symT b), (b_symL b); try (intros H; exact H).
   rewrite !pre_app, !in_app_iff. tauto.
 Qed.
 
@@ -321,3 +321,122 @@ Proof.
     destruct (b_kw_sem b kw b' rest Hc E) as [Hsem Hok]. split; [exact Hok|].
     exists (b_got b'). split; [reflexivity|]. cbn in Hits. injection Hits as <-. exact Hsem.
 Qed.
+
+(** * set_named_params *)
+Lemma param_names_items m its : param_items m = Some its -> param_names m = Some (map fst its).
+Proof. intros H. unfold param_names. rewrite H. reflexivity. Qed.
+
+Lemma set_named_inv m named a kw s' its :
+  param_items m = Some its ->
+  set_named_params (mk_nstate m (Some named)) a kw = (s', inr tt) ->
+  forallb (fun k => memp k named) (map fst kw) = true /\
+  exists m' rest, set_params m [] (named_kwargs named a kw) = (m', Some rest) /\ s' = mk_nstate m' (Some named).
+Proof.
+  intros Hits H. unfold set_named_params, named_params in H. cbn [ns_model ns_named mk_nstate] in H.
+  rewrite (param_names_items m its Hits) in H.
+  destruct (forallb (fun k => memp k named) (map fst kw)); [|discriminate]. split; [reflexivity|].
+  destruct (set_params m [] (named_kwargs named a kw)) as [m' o] eqn:E. cbn [fst snd] in H.
+  destruct o as [rest|]; [|discriminate]. injection H as <-. exists m', rest. split; reflexivity.
+Qed.
+
+Theorem set_named_spec : C17_set_named_spec_stmt.
+Proof.
+  intros m named a kw s' its Hc Hits H.
+  destruct (set_named_inv m named a kw s' its Hits H) as (_ & m' & rest & Hset & ->). cbn [ns_named ns_model mk_nstate].
+  destruct (model_kw_sem m _ m' rest its Hc Hits Hset) as (Hc' & its' & Hits' & Hn & Hsem).
+  split; [reflexivity|]. split; [exact Hc'|]. exists its'. split; [exact Hits'|]. split; [exact Hn|].
+  intros k old Hin. specialize (Hsem k old Hin).
+  rewrite (first_some_ext (fun c => kw_last c (named_kwargs named a kw)) (assigned named a kw)) in Hsem
+    by (intros c _; apply named_kwargs_last).
+  exact Hsem.
+Qed.
+
+Lemma names_consistent_spec m names named : names_consistent m names named = true ->
+  forall n k, In n named -> In k names -> does_contain_in_order k n = memp n (cands m k).
+Proof.
+  unfold names_consistent. intros H n k Hn Hk. rewrite forallb_forall in H. specialize (H n Hn).
+  rewrite forallb_forall in H. specialize (H k Hk). apply Bool.eqb_prop in H. exact H.
+Qed.
+
+Lemma assigned_declared named a kw c :
+  forallb (fun k => memp k named) (map fst kw) = true -> assigned named a kw c <> None -> In c named.
+Proof.
+  intros Hf H. destruct (assigned_none named a kw c H) as [Hin|Hin]; [exact Hin|].
+  rewrite forallb_forall in Hf. apply memp_In, Hf, Hin.
+Qed.
+
+Theorem set_named_positional : C17_set_named_positional_stmt.
+Proof.
+  intros m named a kw s' its Hc Hits Hcons H.
+  destruct (set_named_inv m named a kw s' its Hits H) as (Hf & _).
+  destruct (set_named_spec m named a kw s' its Hc Hits H) as (Hn & _ & its' & Hits' & Hnames & Hsem).
+  split; [exact Hn|]. exists its'. split; [exact Hits'|]. split; [exact Hnames|].
+  intros k old Hin. specialize (Hsem k old Hin).
+  assert (Hk : In k (map fst its)) by (apply in_map_iff; exists (k, old); split; [reflexivity | exact Hin]).
+  pose proof (names_consistent_spec m _ _ Hcons) as Hcs.
+  split.
+  - intros Hnone. rewrite first_some_None in Hsem; [exact Hsem|].
+    intros c Hcin. destruct (assigned named a kw c) eqn:E; [|reflexivity]. exfalso.
+    assert (Hd : In c named) by (apply (assigned_declared named a kw c Hf); congruence).
+    assert (Hm : does_contain_in_order k c = true) by (rewrite (Hcs c k Hd Hk); apply memp_In, Hcin).
+    rewrite (Hnone c Hd Hm) in E. discriminate.
+  - intros n Hnd Hm Ha.
+    assert (Hnc : In n (cands m k)) by (apply memp_In; rewrite <- (Hcs n k Hnd Hk); exact Hm).
+    destruct (first_some_exists (assigned named a kw) _ n Hnc Ha) as (v & Hv). rewrite Hv in Hsem.
+    destruct Hsem as (q & -> & Hget).
+    destruct (first_some_split _ _ _ Hv) as (l1 & w & l2 & Hl & Hw & Hl1).
+    assert (Hwd : In w named) by (apply (assigned_declared named a kw w Hf); congruence).
+    assert (Hwc : In w (cands m k)) by (rewrite Hl; apply in_or_app; right; left; reflexivity).
+    exists w, q. split; [exact Hwd|]. split; [rewrite (Hcs w k Hwd Hk); apply memp_In, Hwc|].
+    split; [exact Hw|]. split; [exact Hget|].
+    intros n' Hn'd Hn'm Hn'a.
+    assert (Hn'c : In n' (cands m k)) by (apply memp_In; rewrite <- (Hcs n' k Hn'd Hk); exact Hn'm).
+    rewrite Hl in Hn'c. apply in_app_or in Hn'c. destruct Hn'c as [Hin1|[<-|Hin2]].
+    + exfalso. apply Hn'a, Hl1, Hin1.
+    + lia.
+    + pose proof (cands_desc m k) as Hd. rewrite Hl in Hd. apply (desc_len_app _ _ _ Hd _ Hin2).
+Qed.
+
+Lemma first_some_single n v l :
+  first_some (fun c : path => if path_eqb c n then Some v else @None val) l = if memp n l then Some v else None.
+Proof.
+  induction l as [|c l IH]; [reflexivity|]. cbn [first_some]. rewrite memp_cons, (path_eqb_sym n c).
+  destruct (path_eqb c n); [reflexivity | exact IH].
+Qed.
+Lemma assigned_single n v c : assigned [n] [v] [] c = if path_eqb c n then Some v else None.
+Proof. reflexivity. Qed.
+
+Theorem global_name_addresses_all_matches : C17_global_name_addresses_all_matches_stmt.
+Proof.
+  intros m n v s' its Hc Hits Hcons (k0 & Hk0 & Hm0) H.
+  destruct (set_named_spec m [n] [v] [] s' its Hc Hits H) as (_ & _ & its' & Hits' & Hnames & Hsem).
+  pose proof (names_consistent_spec m _ _ Hcons) as Hcs.
+  assert (Hfs : forall k, In k (map fst its) ->
+            first_some (assigned [n] [v] []) (cands m k) = if does_contain_in_order k n then Some v else None).
+  { intros k Hk. rewrite (first_some_ext _ (fun c => if path_eqb c n then Some v else None)) by (intros; apply assigned_single).
+    rewrite first_some_single, (Hcs n k (or_introl eq_refl) Hk). reflexivity. }
+  assert (Hq : exists q, v = V q).
+  { apply in_map_iff in Hk0. destruct Hk0 as ([k0' old0] & <- & Hin0). specialize (Hsem _ _ Hin0).
+    rewrite Hfs in Hsem by (apply in_map_iff; exists (k0', old0); split; [reflexivity | exact Hin0]).
+    cbn [fst] in Hm0. rewrite Hm0 in Hsem. destruct Hsem as (q & -> & _). eauto. }
+  destruct Hq as (q & ->). exists q, its'. split; [reflexivity|]. split; [exact Hits'|]. split; [exact Hnames|].
+  intros k old Hin. specialize (Hsem _ _ Hin).
+  rewrite Hfs in Hsem by (apply in_map_iff; exists (k, old); split; [reflexivity | exact Hin]).
+  destruct (does_contain_in_order k n); [|exact Hsem]. destruct Hsem as (q' & [= <-] & Hget). exact Hget.
+Qed.
+
+(** * ExtraParamsError vs ValueError *)
+Theorem extra_keyword_raises : C17_extra_keyword_raises_stmt.
+Proof.
+  intros s a kw names k Hnp Hin Hni.
+  assert (E : forallb (fun k => memp k names) (map fst kw) = false).
+  { destruct (forallb (fun k => memp k names) (map fst kw)) eqn:E; [|reflexivity]. exfalso.
+    rewrite forallb_forall in E. apply Hni, memp_In, E, Hin. }
+  assert (H1 : forall a', set_named_params s a' kw = (s, inl ExtraParamsError)).
+  { intros a'. unfold set_named_params. rewrite Hnp, E. reflexivity. }
+  split; [apply H1|]. split; [apply H1|]. split; [|discriminate].
+  unfold likelihood_outcome, safe_set_params. rewrite H1. reflexivity.
+Qed.
+
+Theorem value_error_is_minus_inf : C17_value_error_is_minus_inf_stmt.
+Proof. intros s g s' H. unfold likelihood_outcome. rewrite H. reflexivity. Qed.
